@@ -297,6 +297,32 @@ def run(ctx, model):
                                   "literal operands yield a pattern that re rejects", f.node.lineno, inp=inp, detail=f"{t!r}: {why}")
     ctx.parallel([(f, pname, grp) for f, pname in variadic for grp in groups], many_item)
 
+    # ---------------- R-CTX (a literal under a quantifier / in a group, classifier interpreted): the WHOLE literal is the operand
+    QU, GRM = "pregex.core.quantifiers", "pregex.core.groups"
+    lit_witnesses = list(WITNESSES) + ["\\\\", "\\\\\\", "ab\\", "\\\\ab", "a|b", "(a", "a)", "[a", "a]", "a{2}", "a?", "ab"]
+
+    def quantified_item(ctx, item):
+        s, (mod, cname, extra, suffix) = item
+        ci = model.cls(mod, cname)
+        f = ci.find_method("__init__")
+        outs = B.run_thunk(model, lambda it: it.construct(ci, [s] + list(extra)), real_classifier=True)
+        inp = f"{cname}({s!r}{''.join(', ' + repr(x) for x in extra)})"
+        o = outs[0]
+        ctx.instance("R-CTX", key=inp, sample=f"{inp} -> {o.describe()[:70]}")
+        if o.kind != "return" or o.text is None:
+            ctx.violation("R-CTX", f.relpath, f.short, "literal operand refused", "a plain string operand is refused", f.node.lineno, inp=inp,
+                          detail=o.describe())
+            return
+        ref = suffix("(?:" + escape_of(model, s) + ")")
+        ok, why = B.same_structure(o.text, ref)
+        if ok is False:
+            ctx.violation("R-CTX", f.relpath, f.short, "literal operand under an operator",
+                          "the operator does not apply to the whole literal (the string is not treated as one operand)",
+                          f.node.lineno, inp=inp, detail=why)
+    forms = [(QU, "Optional", (), lambda g: g + "?"), (QU, "Exactly", (2,), lambda g: g + "{2}"), (QU, "AtLeast", (1, False), lambda g: g + "{1,}?"),
+             (GRM, "Capture", (), lambda g: "(" + g + ")")]
+    ctx.parallel([(s, fm) for s in lit_witnesses if s for fm in forms], quantified_item)
+
     # ---------------- R-AFFIX (semantic): the Word* classes take plain strings only; the constructor is interpreted with
     # the real core builders for a neutral affix 'q' and for adversarial affixes s; the text emitted for s must have
     # the structure of the neutral text with (?:<escape(s)>) in place of q.  How the affix travels through the
